@@ -135,6 +135,7 @@ OPS_UN = {
     'cos': 'lambda A: np.cos(A)', 'tan': 'lambda A: np.tan(A)', 'abs': 'lambda A: np.abs(A)', 'absolute': 'lambda A: np.absolute(A)',
     'floor': 'lambda A: np.floor(A)', 'ceil': 'lambda A: np.ceil(A)', 'round': 'lambda A: np.round(A)', 'sum': 'lambda A: np.sum(A)',
     'value_other_unit': 'lambda A: A.value(ALT)', 'mul_number': 'lambda A: A * 3', 'rmul_number': 'lambda A: 3 * A', 'rdiv_number': 'lambda A: 3 / A',
+    'arcsin': 'lambda A: np.arcsin(A)', 'arccos': 'lambda A: np.arccos(A)', 'arctan': 'lambda A: np.arctan(A)', 'cbrt': 'lambda A: np.cbrt(A)',
     'getitem': 'lambda A: A[0]', 'units': 'lambda A: A.units()', 'str': 'lambda A: str(A.baseunits)', 'power': 'lambda A: np.power(A, 2)',
 }
 # (left unit, right unit, unit to convert result to, other unit for left, other unit for right)
@@ -144,6 +145,7 @@ PAIRS = {
     'energy': ('J', 'erg', 'eV', 'kJ', 'cal'),
     'angle': ('deg', 'rad', 'rad', "'", 'mrad'),
 }
+RATIO = ('%', 'ppth', None, 'ppth', '%')
 R = {'a': 'real', 'b': 'real', 'a2': 'real', 'b2': 'real', 'ea': 'real', 'eb': 'real', 'e2': 'real'}
 POS = ['v.ea >= 0', 'v.eb >= 0', 'v.e2 >= 0']
 
@@ -177,10 +179,15 @@ def scenarios(tier, seed):
                                   consts={'op': op, 'kind': kind, 'ua': ua, 'ub': ub, 'ur': ur_, 'ua2': ua2, 'ub2': ub2},
                                   preamble=PRE + f"OPS = {{{op!r}: {src}}}\n", what=f'{op} on {kind} operands in {ua} and {ub}', samples=1))
     for op, src in OPS_UN.items():
-        for pname, (ua, ub, ur, ua2, ub2) in PAIRS.items():
+        for pname, (ua, ub, ur, ua2, ub2) in list(PAIRS.items()) + [('ratio', RATIO)]:
             if op in ('sin', 'cos', 'tan') and pname != 'angle':
                 continue
-            if op not in ('sin', 'cos', 'tan', 'neg', 'value_other_unit') and pname not in ('samedim',):
+            if op in ('arcsin', 'arccos', 'arctan'):
+                if pname != 'ratio':
+                    continue       # inverse trigonometric functions take a dimensionless argument, here written in % 
+            elif pname == 'ratio':
+                continue
+            elif op not in ('sin', 'cos', 'tan', 'neg', 'value_other_unit') and pname not in ('samedim',):
                 continue
             for kind in ('scalar', 'arr'):
                 if op in ('sum', 'getitem') and kind != 'arr':
